@@ -87,13 +87,18 @@ class Renderer:
         if isinstance(v, int):
             if not self.plain and v != 0 and v % 10 == 0 and r.random() < 0.2:
                 # 120 -> 12e1 (an int with an exponent is still a number literal)
-                return "%de1" % (v // 10)
+                return "%d%s1" % (v // 10, r.choice(["e", "E", "e+", "E+"]))
+            if not self.plain and v == 0 and r.random() < 0.25:
+                # zero in the other spellings the grammar gives it: (int / "-0") [frac] [exp] with int = "0"
+                return r.choice(["-0", "0e0", "0e1", "0E1", "0e+2", "0e-1", "-0e1", "0.0", "-0.0", "0.0e1", "0.00"])
+            if not self.plain and v != 0 and abs(v) < 1000 and r.random() < 0.05:
+                return "%d.0" % v if r.random() < 0.5 else "%d0e-1" % v
             return str(v)
         s = repr(v)
         if "e" in s or "inf" in s or "nan" in s:
             return s
         if not self.plain and r.random() < 0.15:
-            return s + "e0"
+            return s + r.choice(["e0", "E0", "e+0", "e-0", "E-0"])
         return s
 
     def selector(self, sel, ws=True):
